@@ -54,6 +54,14 @@ FailsPS(o) ==
               Check("svk:plane-stress:stress:" \o MeasureName(c.sm), c.ret = 1 /\ c.tight /\ SeqEq(c.v, SvkStress(c.sm, o.l2, o.mu, F1)))
               \cup Check("svk:plane-stress:axial-strain", c.etight /\ c.ezz2 = o.a1 * o.a1 - 1) : i \in 1..Len(o.calls)}
   \cup Check("svk:call-failed", o.allok)
+FailsPSLog(o) ==
+  LET c == [k |-> o.k, q |-> o.q, r |-> o.r, l2 |-> o.l2, mu |-> o.mu] IN
+  Check("hencky:scale", o.ksig = HSigScale(c) /\ o.kpk2 = HPK2Scale(c) /\ o.kpk1 = HPK1Scale(c) /\ o.J0 = Det(OfRowMajor(o.F0)))
+  \cup Check("hencky:plane-stress:shape", Len(o.calls) = 3 /\ \A i \in 1..Len(o.calls) : o.calls[i].sm = i - 1)
+  \cup UNION {LET x == o.calls[i] IN
+              Check("hencky:plane-stress:stress:" \o MeasureName(x.sm), x.ret = 1 /\ x.tight /\ SeqEq(x.v, HStress(x.sm, c)))
+              \cup Check("hencky:plane-stress:axial-strain", x.etight /\ x.ezz2 = o.kax) : i \in 1..Len(o.calls)}
+  \cup Check("hencky:call-failed", o.allok)
 FailsLog(o) ==
   LET c == [k |-> o.k, q |-> o.q, r |-> o.r, l2 |-> o.l2, mu |-> o.mu]
       ES(sm) == HStress(sm, c)
@@ -80,6 +88,7 @@ Fails(o) ==
   IF o.threw THEN {Law(o) \o ":exception"}
   ELSE IF o.kind = "cycle" THEN FailsCycle(o)
   ELSE IF o.kind = "ps" THEN FailsPS(o)
+  ELSE IF o.kind = "pslog" THEN FailsPSLog(o)
   ELSE IF ~ShapeOK(o) THEN {"shape"}
   ELSE ClassFails(o) \cup (IF o.kind = "gl" THEN FailsGL(o) ELSE FailsLog(o))
 ASSUME JudgeAll(Fails)
